@@ -1,0 +1,200 @@
+//go:build verif
+
+// Contracts for package db, checked by /verif (govc). This file is
+// comment-only: it adds no code under any build tag.
+
+package db
+
+// ---- abstract view of the versioned store -------------------------------------
+
+//@ pred hasSecret(kv *kv, n string) { has(kv.secrets, n) }
+//@ fn   activeOf(kv *kv, n string) api.SecretVersion { kv.secrets[n].ActiveVersion }
+//@ fn   latestOf(kv *kv, n string) api.SecretVersion { kv.secrets[n].LatestVersion }
+//@ pred hasVersion(kv *kv, n string, v api.SecretVersion) { has(kv.secrets, n) && has(kv.secrets[n].Versions, v) }
+//@ fn   valueOf(kv *kv, n string, v api.SecretVersion) byteString { kv.secrets[n].Versions[v] }
+
+// Representation invariant.
+//@ pred wfName(kv *kv, n string) { has(kv.secrets, n) ==> (kv.secrets[n] != nil && allocated(kv.secrets[n]) &&
+//@      kv.secrets[n].Versions != nil && allocated(kv.secrets[n].Versions) &&
+//@      has(kv.secrets[n].Versions, kv.secrets[n].ActiveVersion) && !has(kv.secrets[n].Versions, 0)) }
+//@ pred wfVer(kv *kv, n string, v api.SecretVersion) { (has(kv.secrets, n) && has(kv.secrets[n].Versions, v)) ==> v <= kv.secrets[n].LatestVersion }
+//@ pred wfSep(kv *kv, n string, m string) { (has(kv.secrets, n) && has(kv.secrets, m) && n != m) ==>
+//@      (kv.secrets[n] != kv.secrets[m] && kv.secrets[n].Versions != kv.secrets[m].Versions) }
+//@ pred wf(kv *kv) { kv != nil && allocated(kv) && kv.secrets != nil && allocated(kv.secrets) &&
+//@      (forall n string :: wfName(kv, n)) && (forall n string, v api.SecretVersion :: wfVer(kv, n, v)) &&
+//@      (forall n string, m string :: wfSep(kv, n, m)) }
+
+// Pointwise equality of the abstract view between the pre-state and now.
+//@ pred sameAt(kv *kv, n string, v api.SecretVersion) {
+//@      has(kv.secrets, n) == old(has(kv.secrets, n)) &&
+//@      (has(kv.secrets, n) ==> (kv.secrets[n].ActiveVersion == old(kv.secrets[n].ActiveVersion) &&
+//@          kv.secrets[n].LatestVersion == old(kv.secrets[n].LatestVersion) &&
+//@          has(kv.secrets[n].Versions, v) == old(has(kv.secrets[n].Versions, v)) &&
+//@          (has(kv.secrets[n].Versions, v) ==> kv.secrets[n].Versions[v] == old(kv.secrets[n].Versions[v])))) }
+//@ pred viewUnchanged(kv *kv) { forall n string, v api.SecretVersion :: sameAt(kv, n, v) }
+//@ pred othersUnchanged(kv *kv, name string) { forall n string, v api.SecretVersion :: n != name ==> sameAt(kv, n, v) }
+
+// The dedupe condition of the statement: the most recently assigned version still exists and holds these bytes.
+//@ pred dedupes(kv *kv, name string, value []byte) {
+//@      has(kv.secrets[name].Versions, kv.secrets[name].LatestVersion) &&
+//@      kv.secrets[name].Versions[kv.secrets[name].LatestVersion] == bytes(value) }
+
+// ---- on-disk image (schema version 1) ---------------------------------------------
+// The AEAD contexts are pinned here as literals: changing them in the code breaks sync/keys.
+//@ fn ctxDEK(v uint32) string { sprintf("setec DEK v%d", v) }
+//@ fn ctxDB(v uint32) string { sprintf("setec database v%d", v) }
+//@ fn fileOf(kv *kv) string { diskData(disk, kv.path) }
+//@ fn clearOf(kv *kv) string { aeadDec(kv.dekCipher, wjDB(diskData(disk, kv.path)), ctxDB(1)) }
+//@ pred syncHdr(kv *kv) { diskHas(disk, kv.path) && wjVersion(fileOf(kv)) == 1 && !pjSecretsNull(clearOf(kv)) &&
+//@      wjDEK(fileOf(kv)) == bytes(kv.dekRaw) && aeadDecOK(kv.dekCipher, wjDB(fileOf(kv)), ctxDB(1)) }
+//@ pred syncAt(kv *kv, n string, v api.SecretVersion) {
+//@      pjHas(clearOf(kv), n) == has(kv.secrets, n) &&
+//@      (has(kv.secrets, n) ==> (!pjNull(clearOf(kv), n) &&
+//@          pjActive(clearOf(kv), n) == kv.secrets[n].ActiveVersion && pjLatest(clearOf(kv), n) == kv.secrets[n].LatestVersion &&
+//@          pjHasVer(clearOf(kv), n, v) == has(kv.secrets[n].Versions, v) &&
+//@          (has(kv.secrets[n].Versions, v) ==> pjVal(clearOf(kv), n, v) == kv.secrets[n].Versions[v]))) }
+// sync: decoding the file with the in-memory DEK yields exactly the in-memory view.
+//@ pred sync(kv *kv) { syncHdr(kv) && (forall n string, v api.SecretVersion :: syncAt(kv, n, v)) }
+// keys: the stored DEK unwraps under the KEK to the DEK in use, and the cipher in use is built from it.
+//@ pred keys(kv *kv) { kv.dekCipher != nil && kv.dekCipher == aeadOf(ref(kv.dek)) && unwrapDEK(bytes(kv.dekRaw), kv.kekCipher, ctxDEK(1)) == ref(kv.dek) }
+//@ pred inv(kv *kv) { wf(kv) && sync(kv) && keys(kv) }
+// what a file must decode to for the result of opening it to be well formed (holds for every file written by save from a wf state: lemma save-wfFile)
+//@ fn clearOfFile(file string, kek tink.AEAD) string {
+//@      aeadDec(aeadOf(unwrapDEK(wjDEK(file), kek, ctxDEK(wjVersion(file)))), wjDB(file), ctxDB(wjVersion(file))) }
+//@ pred wfClear(c string) { !pjSecretsNull(c) && forall n string, v api.SecretVersion :: pjHas(c, n) ==>
+//@      (!pjNull(c, n) && pjHasVer(c, n, pjActive(c, n)) && !pjHasVer(c, n, 0) && (pjHasVer(c, n, v) ==> v <= pjLatest(c, n))) }
+//@ pred diskSameElsewhere(p string) { forall q string :: q != p ==> (diskHas(disk, q) == old(diskHas(disk, q)) && diskData(disk, q) == old(diskData(disk, q)) && diskPerm(disk, q) == old(diskPerm(disk, q))) }
+
+//@ func aeadContextDEK(version) (r)
+//@   ensures [C03,C05 ctx.dek] bytes(r) == ctxDEK(version)
+//@ func aeadContextDB(version) (r)
+//@   ensures [C03,C05 ctx.db] bytes(r) == ctxDB(version)
+
+//@ func (byteString).MarshalText(b) (out, err)
+//@   ensures [C03,C18 text.marshal] err == nil && bytes(out) == b64enc(str(b))
+//@ func (*byteString).UnmarshalText(b, text) (err)
+//@   requires b != nil
+//@   ensures [C03,C18 text.unmarshal] (err == nil) == b64ok(bytes(text))
+//@   ensures [C03,C18 text.inverse] err == nil ==> str(*b) == b64dec(bytes(text))
+
+//@ func (*kv).save(kv) (err)
+//@   requires kv != nil && allocated(kv) && kv.dekCipher != nil && kv.secrets != nil && (forall n string :: has(kv.secrets, n) ==> kv.secrets[n] != nil)
+//@   ensures [C04 save.gen] kv.gen == old(kv.gen) + ite(err == nil, 1, 0)
+//@   ensures [C03,C05 save.sync] err == nil ==> sync(kv)
+//@   ensures [C05 save.perm0600] err == nil ==> diskPerm(disk, kv.path) == 384
+//@   ensures [C04 save.fail-disk-unchanged] err != nil ==> disk == old(disk)
+//@   ensures [C04,C05 save.only-own-file] diskSameElsewhere(kv.path)
+//@   ensures [C05 save.kek-unused] kekUses == old(kekUses)
+
+//@ func newKV(path, key) (ret, err)
+//@   ensures [C04 newKV.fail-no-kv] err != nil ==> (ret == nil && disk == old(disk))
+//@   ensures [C02,C03 newKV.fields] err == nil ==> (ret != nil && fresh(ret) && ret.gen == 1 && ret.path == path && ret.kekCipher == key)
+//@   ensures [C02 newKV.wf] err == nil ==> wf(ret)
+//@   ensures [C03 newKV.sync] err == nil ==> sync(ret)
+//@   ensures [C05 newKV.keys] err == nil ==> keys(ret)
+//@   ensures [C02 newKV.empty] err == nil ==> (forall n string :: !has(ret.secrets, n))
+//@   ensures [C04,C05 newKV.only-own-file] diskSameElsewhere(path)
+
+//@ func openOrCreateKV(path, kek) (ret, err)
+//@   requires diskHas(disk, path) ==> wfClear(clearOfFile(diskData(disk, path), kek))
+//@   ensures [C03,C05 open.readonly] old(diskHas(disk, path)) ==> disk == old(disk)
+//@   ensures [C03 open.fields] err == nil ==> (ret != nil && fresh(ret) && ret.gen == 1 && ret.path == path && ret.kekCipher == kek)
+//@   ensures [C02,C03 open.wf] err == nil ==> wf(ret)
+//@   ensures [C03,C05 open.decodes] err == nil ==> sync(ret)
+//@   ensures [C05 open.keys] err == nil ==> keys(ret)
+//@   ensures [C04 open.fail-no-kv] err != nil ==> ret == nil
+//@   ensures [C04,C05 open.only-own-file] diskSameElsewhere(path)
+
+//@ func (*kv).filePath(kv) (r)
+//@   requires kv != nil
+//@   ensures r == kv.path
+//@ func (*kv).writeGen(kv) (r)
+//@   requires kv != nil
+//@   ensures r == kv.gen
+
+//@ func (*kv).list(kv) (res)
+//@   requires wf(kv)
+//@   ensures [C01,C02 list.sound] forall j int :: (0 <= j && j < len(res)) ==> has(kv.secrets, res[j])
+//@   ensures [C01,C02 list.complete] forall n string :: has(kv.secrets, n) ==> (exists j int :: 0 <= j && j < len(res) && res[j] == n)
+
+//@ func (*kv).get(kv, name) (sv, err)
+//@   requires wf(kv)
+//@   ensures [C02 get.absent] !has(kv.secrets, name) ==> (sv == nil && err != nil && errIs(err, ErrNotFound))
+//@   ensures [C02,C09,C18 get.present] has(kv.secrets, name) ==> (err == nil && sv != nil && fresh(sv) && allocated(sv) && sv.Version == kv.secrets[name].ActiveVersion &&
+//@        bytes(sv.Value) == kv.secrets[name].Versions[kv.secrets[name].ActiveVersion] && (fresh(sv.Value) || len(sv.Value) == 0))
+
+//@ func (*kv).getVersion(kv, name, version) (sv, err)
+//@   requires wf(kv)
+//@   ensures [C02 getVersion.absent] !hasVersion(kv, name, version) ==> (sv == nil && err != nil && errIs(err, ErrNotFound))
+//@   ensures [C02,C18 getVersion.present] hasVersion(kv, name, version) ==> (err == nil && sv != nil && fresh(sv) && allocated(sv) && sv.Version == version &&
+//@        bytes(sv.Value) == kv.secrets[name].Versions[version] && (fresh(sv.Value) || len(sv.Value) == 0))
+
+//@ func (*kv).info(kv, name) (info, err)
+//@   requires wf(kv)
+//@   ensures [C02 info.absent] !has(kv.secrets, name) ==> (info == nil && err != nil && errIs(err, ErrNotFound))
+//@   ensures [C01,C02 info.present] has(kv.secrets, name) ==> (err == nil && info != nil && fresh(info) && allocated(info) && info.Name == name && info.ActiveVersion == kv.secrets[name].ActiveVersion)
+//@   ensures [C01,C02 info.versions-sound] has(kv.secrets, name) ==> (forall j int :: (0 <= j && j < len(info.Versions)) ==> has(kv.secrets[name].Versions, info.Versions[j]))
+//@   ensures [C01,C02 info.versions-complete] has(kv.secrets, name) ==> (forall v api.SecretVersion :: has(kv.secrets[name].Versions, v) ==> (exists j int :: 0 <= j && j < len(info.Versions) && info.Versions[j] == v))
+//@   loop 0
+//@     invariant [sound] forall j int :: (0 <= j && j < len(info.Versions)) ==> visited(info.Versions[j])
+//@     invariant [complete] forall v api.SecretVersion :: visited(v) ==> (exists j int :: 0 <= j && j < len(info.Versions) && info.Versions[j] == v)
+//@     invariant [fields] info.Name == name && info.ActiveVersion == kv.secrets[name].ActiveVersion
+
+//@ func (*kv).put(kv, name, value) (ver, err)
+//@   requires wf(kv) && sync(kv) && kv.dekCipher != nil
+//@   requires has(kv.secrets, name) ==> kv.secrets[name].LatestVersion < 4294967295
+//@   ensures [C02,C04 put.wf] wf(kv)
+//@   ensures [C03,C04 put.sync] sync(kv)
+//@   ensures [C04 put.fail-disk-unchanged] err != nil ==> (disk == old(disk) && kv.gen == old(kv.gen))
+//@   ensures [C05 put.kek-unused] kekUses == old(kekUses)
+//@   ensures [C02,C04 put.rollback] err != nil ==> ver == 0 && viewUnchanged(kv)
+//@   ensures [C02 put.others] othersUnchanged(kv, name)
+//@   ensures [C02 put.create] (err == nil && !old(has(kv.secrets, name))) ==>
+//@        (ver == 1 && has(kv.secrets, name) && kv.secrets[name].ActiveVersion == 1 && kv.secrets[name].LatestVersion == 1 &&
+//@         (forall v api.SecretVersion :: has(kv.secrets[name].Versions, v) == (v == 1)) && kv.secrets[name].Versions[1] == bytes(value))
+//@   ensures [C02 put.dedupe] (err == nil && old(has(kv.secrets, name)) && old(dedupes(kv, name, value))) ==>
+//@        (ver == old(kv.secrets[name].LatestVersion) && viewUnchanged(kv))
+//@   ensures [C02 put.fresh] (err == nil && old(has(kv.secrets, name)) && !old(dedupes(kv, name, value))) ==>
+//@        (ver == old(kv.secrets[name].LatestVersion) + 1 && has(kv.secrets, name) && kv.secrets[name].LatestVersion == ver &&
+//@         kv.secrets[name].ActiveVersion == old(kv.secrets[name].ActiveVersion) &&
+//@         (forall v api.SecretVersion :: has(kv.secrets[name].Versions, v) == (old(has(kv.secrets[name].Versions, v)) || v == ver)) &&
+//@         (forall v api.SecretVersion :: (v != ver && old(has(kv.secrets[name].Versions, v))) ==> kv.secrets[name].Versions[v] == old(kv.secrets[name].Versions[v])) &&
+//@         kv.secrets[name].Versions[ver] == bytes(value))
+//@   ensures [C02,C18 put.readback] err == nil ==> (hasVersion(kv, name, ver) && valueOf(kv, name, ver) == bytes(value) && ver != 0)
+
+//@ func (*kv).setActive(kv, name, version) (err)
+//@   requires wf(kv) && sync(kv) && kv.dekCipher != nil
+//@   ensures [C02,C04 setActive.wf] wf(kv)
+//@   ensures [C03,C04 setActive.sync] sync(kv)
+//@   ensures [C02,C04 setActive.fail-nochange] err != nil ==> (viewUnchanged(kv) && disk == old(disk) && kv.gen == old(kv.gen))
+//@   ensures [C02 setActive.others] othersUnchanged(kv, name)
+//@   ensures [C02 setActive.rejects] (version == 0 || !old(hasVersion(kv, name, version))) ==> err != nil
+//@   ensures [C02,C08 setActive.notfound] (version != 0 && !old(hasVersion(kv, name, version))) ==> errIs(err, ErrNotFound)
+//@   ensures [C02 setActive.ok] err == nil ==> (has(kv.secrets, name) && kv.secrets[name].ActiveVersion == version && kv.secrets[name].LatestVersion == old(kv.secrets[name].LatestVersion) &&
+//@        (forall v api.SecretVersion :: has(kv.secrets[name].Versions, v) == old(has(kv.secrets[name].Versions, v)) &&
+//@            (has(kv.secrets[name].Versions, v) ==> kv.secrets[name].Versions[v] == old(kv.secrets[name].Versions[v]))))
+//@   ensures [C05 setActive.kek-unused] kekUses == old(kekUses)
+
+//@ func (*kv).deleteVersion(kv, name, version) (err)
+//@   requires wf(kv) && sync(kv) && kv.dekCipher != nil
+//@   ensures [C02,C04 deleteVersion.wf] wf(kv)
+//@   ensures [C03,C04 deleteVersion.sync] sync(kv)
+//@   ensures [C02,C04 deleteVersion.fail-nochange] err != nil ==> (viewUnchanged(kv) && disk == old(disk) && kv.gen == old(kv.gen))
+//@   ensures [C02 deleteVersion.others] othersUnchanged(kv, name)
+//@   ensures [C02 deleteVersion.rejects] (version == 0 || !old(hasVersion(kv, name, version)) || version == old(kv.secrets[name].ActiveVersion)) ==> err != nil
+//@   ensures [C02,C08 deleteVersion.notfound] (version != 0 && (!old(has(kv.secrets, name)) || (version != old(kv.secrets[name].ActiveVersion) && !old(hasVersion(kv, name, version))))) ==> errIs(err, ErrNotFound)
+//@   ensures [C02 deleteVersion.ok] err == nil ==> (has(kv.secrets, name) && kv.secrets[name].ActiveVersion == old(kv.secrets[name].ActiveVersion) && kv.secrets[name].LatestVersion == old(kv.secrets[name].LatestVersion) &&
+//@        !has(kv.secrets[name].Versions, version) &&
+//@        (forall v api.SecretVersion :: v != version ==> (has(kv.secrets[name].Versions, v) == old(has(kv.secrets[name].Versions, v)) &&
+//@            (has(kv.secrets[name].Versions, v) ==> kv.secrets[name].Versions[v] == old(kv.secrets[name].Versions[v])))))
+//@   ensures [C05 deleteVersion.kek-unused] kekUses == old(kekUses)
+
+//@ func (*kv).deleteSecret(kv, name) (err)
+//@   requires wf(kv) && sync(kv) && kv.dekCipher != nil
+//@   ensures [C02,C04 deleteSecret.wf] wf(kv)
+//@   ensures [C03,C04 deleteSecret.sync] sync(kv)
+//@   ensures [C02,C04 deleteSecret.fail-nochange] err != nil ==> (viewUnchanged(kv) && disk == old(disk) && kv.gen == old(kv.gen))
+//@   ensures [C02 deleteSecret.others] othersUnchanged(kv, name)
+//@   ensures [C02,C08 deleteSecret.absent-ok] !old(has(kv.secrets, name)) ==> (err == nil && viewUnchanged(kv) && disk == old(disk))
+//@   ensures [C02 deleteSecret.ok] err == nil ==> !has(kv.secrets, name)
+//@   ensures [C05 deleteSecret.kek-unused] kekUses == old(kekUses)
